@@ -128,10 +128,10 @@ def view_route(ck, tmp, n):
         try:
             tool("index", gaf_path=gaf, gfa_path=gfa)
             out = os.path.join(tmp, "v.out")
-            tool("view", gaf_path=gaf, gfa=gfa, output=out, nodes=nodes)
+            tool("view", allow_stdout=True, gaf_path=gaf, gfa=gfa, output=out, nodes=nodes)
             got = open(out).read().splitlines()
             out2 = os.path.join(tmp, "v.out2")
-            tool("view", gaf_path=gaf, gfa=gfa, output=out2, format="stable")
+            tool("view", allow_stdout=True, gaf_path=gaf, gfa=gfa, output=out2, format="stable")
             got2 = open(out2).read().splitlines()
         except BaseException as e:  # noqa
             ck.violation("view crashed on a well-formed file: %s" % type(e).__name__, {"gfa": g.text(), "gaf": lines})
@@ -229,7 +229,7 @@ def c19(ck, tmp):
             o = os.path.join(tmp, "s.out")
             try:
                 with watchdog(60):
-                    tool("stat", gaf_path=p, cigar_stat=cigar, output=o)
+                    tool("stat", allow_stdout=True, gaf_path=p, cigar_stat=cigar, output=o)
                 reports.append(parse_report(open(o).read()))
             except BaseException as e:  # noqa
                 reports.append({"crash": type(e).__name__})
@@ -315,7 +315,7 @@ def c20(ck, tmp):
         out = os.path.join(tmp, "p.out")
         try:
             with watchdog(60):
-                tool("phase", gaf_file=gaf, tsv_file=tp, output=out)
+                tool("phase", allow_stdout=True, gaf_file=gaf, tsv_file=tp, output=out)
             impl = open(out).read().split("\n")
         except BaseException as e:  # noqa
             impl = None
